@@ -169,12 +169,12 @@ class Null(Type):
 
 class BitString(Type):
 
-    def __init__(self, name, minimum, maximum):
+    def __init__(self, name, minimum, maximum, has_extension_marker=False):
         super(BitString, self).__init__(name, 'BIT STRING')
 
         if minimum is None and maximum is None:
             self.size = None
-        elif minimum == maximum:
+        elif minimum == maximum and not has_extension_marker:
             self.size = minimum
         else:
             self.size = None
@@ -611,9 +611,9 @@ class Compiler(compiler.Compiler):
         elif type_name == 'GeneralizedTime':
             compiled = GeneralizedTime(name)
         elif type_name == 'BIT STRING':
-            minimum, maximum, _ = self.get_size_range(type_descriptor,
-                                                      module_name)
-            compiled = BitString(name, minimum, maximum)
+            compiled = BitString(name,
+                                 *self.get_size_range(type_descriptor,
+                                                      module_name))
         elif type_name == 'ANY':
             compiled = Any(name)
         elif type_name == 'ANY DEFINED BY':
